@@ -57,6 +57,7 @@ DIFFS = [
     b'@@ -1,2 +1,2 @@\n a\n-b\n+c\n\\ No newline at end of file', b'\n', b'\r\n', b'a\rb',
     'déjà\n'.encode('utf-16'), '-x\n+y\n'.encode('utf-16-le'), b' ' * 5, b'a\n\nb\n\n',
     'diff\r\n'.encode('utf-32-be'), b'\n\r', b'x' * 200 + b'\n',
+    b'x' + '\n'.encode('utf-16-le'), b'\x00ab' + '\r\n'.encode('utf-32-le'), b'odd\n\x00',     # not whole code units, yet ending in the encoded newline
     b'first\r\nlone lf\nlast\r\n', b'first\nthen crlf\r\nlast\n', b'a\r\n\nb\r\n',     # mixed line endings
 ]
 
